@@ -802,6 +802,18 @@ PANIC_CALLEES = (
     "core::panicking::panic_explicit", "core::panicking::unreachable_display", "core::panicking::panic_display",
     "chrono::offset::LocalResult::<T>::unwrap", "core::ops::index::Index::index", "core::ops::index::IndexMut::index_mut",
     "core::slice::<impl [T]>::split_at", "core::str::<impl str>::split_at",
+    # std operations that panic on an index / length / char-boundary argument (the data here is the request's)
+    "alloc::string::String::truncate", "alloc::string::String::remove", "alloc::string::String::insert", "alloc::string::String::insert_str",
+    "alloc::string::String::split_off", "alloc::string::String::drain", "alloc::string::String::replace_range",
+    "alloc::vec::Vec::<T, A>::remove", "alloc::vec::Vec::<T, A>::swap_remove", "alloc::vec::Vec::<T, A>::insert", "alloc::vec::Vec::<T, A>::split_off",
+    "alloc::vec::Vec::<T, A>::drain", "alloc::vec::Vec::<T, A>::truncate_front",
+    "core::slice::<impl [T]>::split_at_mut", "core::slice::<impl [T]>::copy_from_slice", "core::slice::<impl [T]>::clone_from_slice",
+    "core::slice::<impl [T]>::swap", "core::slice::<impl [T]>::chunks", "core::slice::<impl [T]>::chunks_exact", "core::slice::<impl [T]>::windows",
+    "core::slice::<impl [T]>::rotate_left", "core::slice::<impl [T]>::rotate_right",
+    "core::str::<impl str>::split_at_mut", "bytes::bytes::Bytes::slice", "bytes::bytes::Bytes::split_to", "bytes::bytes::Bytes::split_off",
+    "bytes::bytes_mut::BytesMut::split_to", "bytes::bytes_mut::BytesMut::split_off", "bytes::buf::buf_impl::Buf::advance",
+    "core::char::methods::<impl char>::from_digit", "core::num::<impl u32>::pow", "core::time::Duration::from_secs_f64", "core::time::Duration::from_secs_f32",
+    "std::time::Instant::duration_since", "core::iter::traits::iterator::Iterator::step_by",
 )
 
 
@@ -1524,10 +1536,13 @@ def c20(rep, W, rule="C20"):
     pe = eh_body
     if pe is not None:
         resp_param = ("param", 2 if pe.kind == "Closure" else 1, ANY)
-        okp = False
-        for site, term in S.exits(W, pe):
-            mm = m(pat.adt("Result", "Ok", ("0", pat.adt("ErrorHandlerResponse", "Response", ("0", call("actix_web::service::ServiceResponse::<B>::map_into_left_body", resp_param))))), term)
-            okp = okp or mm is not None
+        okp = True
+        nex = 0
+        for site, rt, val, kind in S.exit_kinds(W, pe, lambda t_: "x"):
+            nex += 1
+            mm = m(pat.adt("Result", "Ok", ("0", pat.adt("ErrorHandlerResponse", "Response", ("0", call("actix_web::service::ServiceResponse::<B>::map_into_left_body", resp_param))))), rt)
+            okp = okp and mm is not None          # EVERY exit: an `Err(..)` from the handler is rendered anew, outside the no-store scope
+        okp = okp and nex > 0
         rep.ob(rule + ".ONLY", ("print_error", "passes-response-through"), okp, "the 500 error handler returns the very response it was given (headers intact)", where(pe))
     elif "ErrorHandlers" in kinds_seen:
         rep.fail(rule + ".ONLY", ("print_error", "passes-response-through"), "the 500 error handler is not a statically known function or closure")
